@@ -137,6 +137,7 @@ class Registry:
         self.loop_contracts = {}  # (qualname, ordinal) -> LoopContract
         self.ignore_calls = set()  # logger functions etc. treated as pass
         self.attr_models = {}     # (pytype, attrname) -> model(interp, obj)
+        self.use_opaque = True
 
     def model(self, f):
         def deco(fn):
@@ -159,6 +160,7 @@ class Interp:
         self.called_contracts = set()
         self.inlined = set()
         self.native_calls = set()
+        self.opaque_used = set()
 
     # ------------------------------------------------------------------------------------------
     # calling
@@ -177,7 +179,16 @@ class Interp:
                     raise PyRaise(e, implicit=True)
                 ba.apply_defaults()
                 local = dict(ba.arguments)
-                frame = Frame(local, fobj.__globals__, None, fobj, fobj.__qualname__)
+                parent = None
+                if fobj.__closure__:
+                    cells = {}
+                    for nm, cell in zip(fobj.__code__.co_freevars, fobj.__closure__):
+                        try:
+                            cells[nm] = cell.cell_contents
+                        except ValueError:
+                            pass
+                    parent = Frame(cells, fobj.__globals__, None, None, fobj.__qualname__)
+                frame = Frame(local, fobj.__globals__, parent, fobj, fobj.__qualname__)
             else:
                 local = self._bind_ast_args(node.args, args, kwargs, closure_frame)
                 frame = Frame(local, closure_frame.globals, closure_frame, None,
@@ -273,7 +284,10 @@ class Interp:
             if isinstance(slf, (list, dict, set)) or isinstance(slf, (bytes, str, int, tuple, bytearray)):
                 if f.__name__ in _SAFE_LIST_METHODS and isinstance(slf, (list, dict, set)):
                     if f.__name__ == 'pop' and isinstance(slf, list) and args and not isinstance(args[0], int):
-                        k = self.ctx.concretize(int_term(args[0]), limit=200, what='pop index')
+                        t = int_term(args[0])
+                        if not self.ctx.branch(z3.And(t >= -len(slf), t < len(slf))):
+                            raise PyRaise(IndexError('pop index out of range'), implicit=True)
+                        k = self.ctx.concretize(t, limit=200, what='pop index')
                         return self.native(f, [k], {})
                     if not (isinstance(slf, dict) and not is_concrete(args[:1])):
                         return self.native(f, args, kwargs)
@@ -303,6 +317,10 @@ class Interp:
     def call_pyfunc(self, f, args, kwargs):
         if f in self.reg.ignore_calls:
             return None
+        oq = getattr(f, '_pyvc_opaque', None)
+        if oq is not None and self.reg.use_opaque and not kwargs:
+            if any(isinstance(a, (SBytes, SStr)) and a.items is None for a in args):
+                return self.call_opaque(f, oq, args)
         if self._has_contract(f):
             c = self.reg.contracts[f]
             r = c.apply(self, f, args, kwargs)
@@ -323,6 +341,48 @@ class Interp:
         if any(isinstance(n, (ast.Yield, ast.YieldFrom, ast.Await)) for n in ast.walk(node)):
             raise Unsupported('generator %s' % f.__qualname__)
         return self.call_function_ast(f, node, args, kwargs)
+
+    def call_opaque(self, f, oq, args):
+        from . import models
+        ctx = self.ctx
+        name = '%s.%s' % (f.__module__.split('.')[-1], f.__name__)
+        sorts, terms = [], []
+        for a in args:
+            if isinstance(a, (bytes, SBytes, str, SStr)):
+                sorts.append(IntSeq)
+                terms.append(ops.as_sseq(a).seq_term())
+            elif isinstance(a, (int, SInt, SBool)):
+                sorts.append(z3.IntSort())
+                terms.append(int_term(a))
+            else:
+                raise Unsupported('argument %r of opaque spec %s' % (a, name))
+        ctx.ufs.add(name)
+        self.opaque_used.add(name)
+        if oq['result'] == 'int':
+            r = SInt(z3.Function(name, *(sorts + [z3.IntSort()]))(*terms))
+        elif oq['result'] == 'bool':
+            r = SBool(z3.Function(name, *(sorts + [z3.BoolSort()]))(*terms))
+        else:
+            app = z3.Function(name, *(sorts + [IntSeq]))(*terms)
+            if oq['outlen'] is not None:
+                ctx.couple(app, oq['outlen'])
+                r = SBytes(seq=SeqPart(app, oq['outlen']))
+            else:
+                ln = z3.Function(name + '.len', *(sorts + [z3.IntSort()]))(*terms)
+                ctx.fact(ln >= 0)
+                ctx.couple(app, ln)
+                r = SBytes(seq=SeqPart(app, ln))
+        if oq['facts'] is not None:
+            key = (name, tuple(t.get_id() for t in terms))
+            if key not in ctx.opaque_facts_done:
+                ctx.opaque_facts_done.add(key)
+                sub = Interp(ctx, self.reg, modular=False)
+                sub.top_name = getattr(self, 'top_name', '')
+                sub.opaque_used = self.opaque_used
+                facts = sub.call(oq['facts'], list(args) + [r])
+                for fa in self.iterate(facts):
+                    ctx.assume(truth_term(ctx, fa))
+        return r
 
     def call_class(self, cls, args, kwargs):
         from . import models
